@@ -13,8 +13,12 @@
 #include <AIToolbox/Factored/Utils/Trie.hpp>
 #include <AIToolbox/Factored/Utils/FasterTrie.hpp>
 #include <AIToolbox/Factored/Utils/FilterMap.hpp>
+#include <AIToolbox/Factored/Utils/Core.hpp>
 #include <AIToolbox/Seeder.hpp>
 #include <algorithm>
+#include <set>
+#include <optional>
+#include <array>
 #include <utility>
 #include <AIToolbox/Utils/IndexMap.hpp>
 #include <sys/wait.h>
@@ -81,7 +85,39 @@ static bool probe(const std::string & comp, const std::string & kind, const F::F
     return crashed;
 }
 
+// FasterTrie with an empty key (a partial assignment naming no factor; Trie stores it): run in a forked child.
+// `C20 fprobe <component> <kind> crash|ok|<exception> <F> <what>`
+static bool g_ftEmptyCrashes = false;
+static bool fprobe(const std::string & comp, const std::string & what) {
+    std::fflush(stdout); std::fflush(stderr);
+    int fds[2]; if (pipe(fds) != 0) return true;
+    pid_t pid = fork();
+    if (pid == 0) {
+        int dn = open("/dev/null", O_WRONLY);
+        if (dn >= 0) { dup2(dn, 2); dup2(dn, 1); }
+        close(fds[0]);
+        std::string out = "ok";
+        try {
+            if (what == "insert") { F::FasterTrie t(F::Factors{2, 2}); t.insert(PF{}); }
+            else if (what == "erase") { F::FasterTrie t(F::Factors{2, 2}); t.insert(PF{{0}, {1}}); t.erase(0, PF{}); }
+            else { F::FilterMap<size_t> fm(F::Factors{2, 2}); fm.emplace(PF{}, (size_t)7); }
+        } catch (const std::exception & e) { out = errClass(e); }
+        if (write(fds[1], out.c_str(), out.size()) < 0) _exit(3);
+        _exit(0);
+    }
+    close(fds[1]);
+    char buf[128]; ssize_t n = read(fds[0], buf, sizeof buf - 1); close(fds[0]);
+    int st = 0; bool crashed = true;
+    if (pid > 0 && waitpid(pid, &st, 0) == pid) crashed = !(WIFEXITED(st) && WEXITSTATUS(st) == 0);
+    std::string out = crashed || n <= 0 ? "crash" : std::string(buf, (size_t)n);
+    Line l; l << "C20" << "fprobe" << comp << "empty_key_read" << out; l.nats(F::Factors{2, 2}); l << what;
+    g_probeLines.push_back(l.os.str());
+    return out == "crash";
+}
+
 static void run_probes() {
+    { bool a = fprobe("FasterTrie::insert", "insert"), b = fprobe("FasterTrie::erase", "erase"), c = fprobe("FilterMap<FasterTrie>::emplace", "emplace");
+      g_ftEmptyCrashes = a || b || c; }
     PF k01{{0}, {1}}, k00{{0}, {0}};
     // #9: first factor is not the smallest: size() / getAllIds() index the smaller factor's lists with the first factor's count
     g_sizeCrashes = probe("Trie::size", "oob_read", {3, 2}, {{"ins", 0, k01}, {"siz"}});
@@ -108,6 +144,26 @@ static PF randomPF(Rng & rng, const F::Factors & sp, bool allowEmpty) {
         pf.first.push_back(k); pf.second.push_back(rng.below(sp[k]));
     }
     return pf;
+}
+
+// the same pairs in a random order (filter / refine take the pairs one by one: order must not matter)
+static PF shuffledPF(Rng & rng, PF pf) {
+    for (size_t i = pf.first.size(); i > 1; --i) {
+        size_t j = rng.below(i);
+        std::swap(pf.first[i - 1], pf.first[j]); std::swap(pf.second[i - 1], pf.second[j]);
+    }
+    return pf;
+}
+static PF concatPF(const PF & a, const PF & b) {
+    PF r = a;
+    r.first.insert(r.first.end(), b.first.begin(), b.first.end());
+    r.second.insert(r.second.end(), b.second.begin(), b.second.end());
+    return r;
+}
+static void statKey(const char * what, const PF & pf, const F::Factors & sp) {
+    bool prefix = true;
+    for (size_t i = 0; i < pf.first.size(); ++i) prefix = prefix && pf.first[i] == i;
+    std::printf("#stat %s_%s 1\n", what, pf.first.empty() ? "empty" : pf.first.size() == sp.size() ? "full" : pf.first.size() == 1 ? "single" : prefix ? "prefix" : "non_prefix");
 }
 
 struct Issued { size_t id; PF pf; bool live; };
@@ -145,12 +201,41 @@ static void trie_case(Rng & rng, const F::Factors & sp, int maxOps) {
     int nops = (int)rng.range(8, maxOps);
     bool heavyErase = rng.coin(1, 3);
     for (int o = 0; o < nops; ++o) {
-        unsigned r = (unsigned)rng.below(100);
+        unsigned r = (unsigned)rng.below(114);
+        if (o >= 3 && r >= 100) {
+            if (r < 105) {
+                // refine chain: refine(filter(q1), q2) must be filter(q1 ++ q2)
+                PF q1 = randomPF(rng, sp, false), q2 = randomPF(rng, sp, true);
+                auto ids1 = t.filter(q1);
+                auto res = t.refine(ids1, q2);
+                l << "rfc"; pfTok(l, q1); pfTok(l, q2); l.nats(ids1); l.nats(res);
+                std::printf("#stat refine_chain_%s 1\n", res.empty() ? "empty" : "nonempty");
+            } else if (r < 109) {
+                // two refinements of an arbitrary ascending id list vs one refinement by the joined (unsorted, possibly repeated) key
+                std::vector<size_t> ids;
+                for (size_t i = 0; i < next + 2; ++i) if (rng.coin(3, 4)) ids.push_back(i);
+                PF q1 = randomPF(rng, sp, false), q2 = randomPF(rng, sp, false);
+                auto r1 = t.refine(ids, q1);
+                auto r2 = t.refine(r1, q2);
+                auto r12 = t.refine(ids, concatPF(q1, q2));
+                l << "rr"; l.nats(ids); pfTok(l, q1); pfTok(l, q2); l.nats(r1); l.nats(r2); l.nats(r12);
+                std::printf("#stat refine_refine_%s 1\n", r2.empty() ? "empty" : "nonempty");
+            } else if (r < 111) {
+                t.reserve((size_t)rng.below(64)); l << "rsv";
+                std::printf("#stat trie_reserve 1\n");
+            } else {
+                // continue the history on a copy of the trie (copy-construct, then move back)
+                F::Trie c(t); t = std::move(c); l << "cpy";
+                std::printf("#stat trie_copy 1\n");
+            }
+            continue;
+        }
         if (o < 3 || r < 32) {
             PF pf = pickKey(rng, sp, issued, true);
             size_t id = t.insert(pf);
             l << "ins"; pfTok(l, pf); l << id;
             issued.push_back({id, pf, true}); next = std::max(next, id + 1);
+            statKey("insert_key", pf, sp);
         } else if (r < (heavyErase ? 50u : 40u)) {
             int kind; long v = pickVictim(rng, issued, kind);
             size_t id = v >= 0 ? issued[v].id : next + rng.below(3);
@@ -170,6 +255,8 @@ static void trie_case(Rng & rng, const F::Factors & sp, int maxOps) {
         } else if (r < 70) {
             PF q = randomPF(rng, sp, true);
             if (q.first.empty() && risky && g_allIdsCrashes) { std::printf("#stat avoided_allids 1\n"); continue; }
+            statKey("query_key", q, sp);
+            if (q.first.size() >= 2 && rng.coin(1, 3)) { q = shuffledPF(rng, q); std::printf("#stat query_keys_shuffled 1\n"); }
             auto res = t.filter(q);
             l << "flt"; pfTok(l, q); l.nats(res);
             std::printf("#stat filter_%s 1\n", res.empty() ? "empty" : "nonempty");
@@ -187,6 +274,7 @@ static void trie_case(Rng & rng, const F::Factors & sp, int maxOps) {
             unsigned dens = 1 + (unsigned)rng.below(3);
             for (size_t i = 0; i < next + 2; ++i) if (rng.coin(dens, 4)) ids.push_back(i);
             PF q = randomPF(rng, sp, true);
+            if (q.first.size() >= 2 && rng.coin(1, 3)) { q = shuffledPF(rng, q); std::printf("#stat refine_keys_shuffled 1\n"); }
             auto res = t.refine(ids, q);
             l << "ref"; l.nats(ids); pfTok(l, q); l.nats(res);
         } else {
@@ -202,8 +290,11 @@ static void trie_case(Rng & rng, const F::Factors & sp, int maxOps) {
     }
     if (!(risky && g_sizeCrashes)) l << "siz" << t.size();
     if (!(risky && g_allIdsCrashes)) { auto res = t.filter(PF{}); l << "flt"; pfTok(l, PF{}); l.nats(res); }
+    l << "gf"; l.nats(t.getF()); l.nats(t.getFactors());
     l << "end"; l.emit();
     std::printf("#stat trie_shape_%s 1\n", risky ? "first_not_smallest" : "first_smallest");
+    std::printf("#stat trie_nfactors_%zu 1\n", sp.size());
+    std::printf("#stat trie_has_size1_factor_%d 1\n", (int)(std::find(sp.begin(), sp.end(), (size_t)1) != sp.end()));
 }
 
 static void ftrie_case(Rng & rng, const F::Factors & sp, int maxOps) {
@@ -213,7 +304,45 @@ static void ftrie_case(Rng & rng, const F::Factors & sp, int maxOps) {
     Line l; l << "C20" << "ftrie"; l.nats(sp);
     int nops = (int)rng.range(8, maxOps);
     for (int o = 0; o < nops; ++o) {
-        unsigned r = (unsigned)rng.below(100);
+        unsigned r = (unsigned)rng.below(106);
+        if (o >= 3 && r >= 100 && rng.coin(1, 4)) {
+            // an empty key: rejected (or a no-op for erase) once FasterTrie guards it; left out while the probe shows it crashes
+            if (g_ftEmptyCrashes) { std::printf("#stat avoided_ftrie_empty_key 1\n"); continue; }
+            if (rng.coin()) {
+                std::string out = "ok"; size_t id = 0;
+                try { id = t.insert(PF{}); } catch (const std::exception & e) { out = errClass(e); }
+                l << "ine" << out << id;
+                if (out == "ok") { issued.push_back({id, PF{}, true}); next = std::max(next, id + 1); }
+            } else {
+                size_t id = next ? rng.below(next) : 0;
+                std::string out = "ok";
+                try { t.erase(id, PF{}); } catch (const std::exception & e) { out = errClass(e); }
+                l << "ere" << id << out;
+            }
+            std::printf("#stat ftrie_empty_key_op 1\n");
+            continue;
+        }
+        if (o >= 3 && r >= 100) {
+            if (r < 102) {
+                F::FasterTrie c(t); t = std::move(c); l << "cpy";
+                std::printf("#stat ftrie_copy 1\n");
+            } else {
+                // the same query reconstructed several times in a row (remove = false): each outcome must satisfy the clauses;
+                // the shuffles differ from call to call
+                PF q = randomPF(rng, sp, true);
+                std::set<std::vector<size_t>> outcomes;
+                for (int k = 0; k < 4; ++k) {
+                    auto [entries, f] = t.reconstruct(q, false);
+                    l << "rec"; pfTok(l, q); l << false << (size_t)entries.size();
+                    std::vector<size_t> ids;
+                    for (auto & e : entries) { l << e.first; pfTok(l, e.second); ids.push_back(e.first); }
+                    l.nats(f);
+                    std::sort(ids.begin(), ids.end()); outcomes.insert(ids);
+                }
+                std::printf("#stat reconstruct_burst_distinct_outcomes_%zu 1\n", outcomes.size());
+            }
+            continue;
+        }
         if (o < 3 || r < 35) {
             PF pf = pickKey(rng, sp, issued, false);
             size_t id = t.insert(pf);
@@ -257,6 +386,17 @@ static void ftrie_case(Rng & rng, const F::Factors & sp, int maxOps) {
     l << "end"; l.emit();
 }
 
+// `sort()` on a FilterMap::filter result (what the repository's tests do before comparing): its own `srt` line
+template <class R>
+static void emitSorted(R r, const std::vector<size_t> & cont) {
+    std::vector<size_t> ids, ids2, vals;
+    for (auto it = r.begin(); it != r.end(); ++it) ids.push_back(it.toContainerId());
+    r.sort();
+    for (auto it = r.begin(); it != r.end(); ++it) { ids2.push_back(it.toContainerId()); vals.push_back(*it); }
+    Line l; l << "C20" << "srt"; l.nats(ids); l.nats(cont); l << "|"; l.nats(ids2); l.nats(vals); l.emit();
+    std::printf("#stat sort_filter_result 1\n");
+}
+
 template <class FM, class R>
 static void emitIterable(Line & l, R && r) {
     std::vector<size_t> ids, items;
@@ -276,7 +416,9 @@ static void walkIterators(Line & l, It b, It e, long n) {
     for (auto it = b; it != e; ) { auto old = it++; post.push_back(*old); }
     for (long k = 0; k < n; ++k) { plus.push_back(*(b + k)); sub.push_back(b[k]); auto it = b; it += k; pluseq.push_back(*it); }
     for (auto it = e; it != b; ) { --it; rev.push_back(*it); }
-    for (auto it = e; it != b; ) { it--; revpost.push_back(*it); }
+    std::vector<size_t> oldpos, newpos;   // what post-decrement / pre-decrement RETURN (as distances from begin)
+    for (auto it = e; it != b; ) { auto old = it--; oldpos.push_back((size_t)(old - b)); revpost.push_back(*it); }
+    for (auto it = e; it != b; ) { auto nw = --it; newpos.push_back((size_t)(nw - b)); }
     for (long k = 1; k <= n; ++k) {
         auto m = e - k; const long d = (long)(e - m);
         dist.push_back((size_t)(d < 0 ? 777777 : d));
@@ -284,13 +426,25 @@ static void walkIterators(Line & l, It b, It e, long n) {
         auto it = e; it -= k; minuseq.push_back(*it);
     }
     size_t cmpWrong = 0;
+    // the const-qualified member overloads (`operator*() const`, `operator->() const`, `operator[](diff) const`, `toContainerId() const`)
+    // are only chosen for a const iterator OBJECT: same entries expected
+    { long k = 0; for (auto it = b; it != e; ++it, ++k) {
+        const It cit = it; const It cb = b;
+        cmpWrong += (*cit != *it) + (*(cit.operator->()) != *it) + (cb[k] != *it) + (cit.toContainerId() != it.toContainerId());
+    } }
+    // values RETURNED by ++it, it += k, it -= k (the walks above only use their side effect)
+    { long k = 0; for (auto it = b; it != e; ) { auto nw = ++it; ++k; cmpWrong += ((long)(nw - b) != k); } }
+    for (long k = 0; k <= n; ++k) {
+        auto it = b; auto r1 = (it += k); cmpWrong += ((long)(r1 - b) != k);
+        auto jt = e; auto r2 = (jt -= k); cmpWrong += ((long)(e - r2) != k);
+    }
     for (long i = 0; i <= n; ++i) for (long j = 0; j <= n; ++j) {
         auto x = b + i, y = b + j;
         cmpWrong += ((x < y) != (i < j)) + ((x > y) != (i > j)) + ((x <= y) != (i <= j)) + ((x >= y) != (i >= j)) + ((x == y) != (i == j)) + ((x != y) != (i != j));
         cmpWrong += ((long)(y - x) != j - i);
     }
     l.nats(fwd); l.nats(post); l.nats(arrow); l.nats(plus); l.nats(sub); l.nats(pluseq); l.nats(rev); l.nats(revpost);
-    l.nats(minus); l.nats(minuseq); l.nats(dist); l << (size_t)(e - b) << cmpWrong;
+    l.nats(minus); l.nats(minuseq); l.nats(dist); l << (size_t)(e - b) << cmpWrong; l.nats(oldpos); l.nats(newpos);
 }
 
 template <class R, class C>
@@ -325,6 +479,50 @@ static void indexmap_case(Rng & rng) {
     emitIterWalk("ref", ref, cont);
     AIToolbox::IndexMap<std::vector<size_t>, const std::vector<size_t>> cown(ids, cont);
     emitIterWalk("cown", cown, cont);
+    if (N >= 3) {   // the initializer_list deduction guide
+        AIToolbox::IndexMap il({N - 1, (size_t)0, N - 2, (size_t)0}, cont);
+        emitIterWalk("ilist", il, cont);
+    }
+}
+
+
+// the rest of FilterMap's interface, common to both trie types: operator[], begin()/end(), getContainer(), getF(), reserve(),
+// FilterMap(trie, items) (accepting and rejecting).  Returns true when it emitted an op.
+template <class FM>
+static bool fmapExtraOp(Rng & rng, Line & l, FM & fm, const F::Factors & sp, size_t nItems) {
+    unsigned r = (unsigned)rng.below(7);
+    const FM & cfm = fm;
+    if (r == 0) {
+        if (!nItems) return false;
+        size_t id = rng.below(nItems);
+        l << "get" << id << (rng.coin() ? fm[id] : cfm[id]);
+    } else if (r == 1) {
+        std::vector<size_t> a, b;
+        if (rng.coin()) for (auto it = fm.begin(); it != fm.end(); ++it) a.push_back(*it);
+        else for (auto it = cfm.begin(); it != cfm.end(); ++it) a.push_back(*it);
+        b = cfm.getContainer();
+        l << "all"; l.nats(a); l.nats(b);
+    } else if (r == 2) {
+        l << "gf"; l.nats(fm.getF()); l.nats(sp);
+    } else if (r == 3) {
+        fm.reserve((size_t)rng.below(64)); l << "rsv";
+    } else if (r == 4) {
+        // rebuild from (trie, new items): the documented way to change the item type; go on with the rebuilt map
+        std::vector<size_t> items(nItems);
+        for (size_t i = 0; i < nItems; ++i) items[i] = 5000 + 11 * i + rng.below(7);
+        std::string out = "ok";
+        try { FM fm2(fm.getTrie(), items); fm = std::move(fm2); } catch (const std::exception & e) { out = errClass(e); }
+        l << "rbd"; l.nats(items); l << out;
+    } else {
+        // wrong container size: must be rejected
+        size_t n = nItems + 1 + rng.below(3);
+        if (nItems && rng.coin()) n = rng.below(nItems);
+        std::string out = "ok";
+        try { FM fm2(fm.getTrie(), std::vector<size_t>(n, 7)); } catch (const std::exception & e) { out = errClass(e); }
+        l << "rbx" << n << out;
+    }
+    std::printf("#stat filtermap_extra_op_%u 1\n", r);
+    return true;
 }
 
 static void fmap_trie_case(Rng & rng, const F::Factors & sp, int maxOps) {
@@ -335,7 +533,8 @@ static void fmap_trie_case(Rng & rng, const F::Factors & sp, int maxOps) {
     Line l; l << "C20" << "fmt"; l.nats(sp);
     int nops = (int)rng.range(6, maxOps);
     for (int o = 0; o < nops; ++o) {
-        unsigned r = (unsigned)rng.below(100);
+        unsigned r = (unsigned)rng.below(125);
+        if (o >= 3 && r >= 100) { fmapExtraOp(rng, l, fm, sp, issued.size()); continue; }
         if (o < 3 || r < 45) {
             PF pf = pickKey(rng, sp, issued, true);
             size_t item = 1000 + 7 * issued.size() + rng.below(5);
@@ -357,7 +556,9 @@ static void fmap_trie_case(Rng & rng, const F::Factors & sp, int maxOps) {
             F::Factors f(len);
             for (size_t i = 0; i < len; ++i) f[i] = rng.below(sp[off + i]);
             l << "flf"; l.nats(f) << off;
-            if (off == 0 && rng.coin()) emitIterable<FM>(l, fm.filter(f)); else emitIterable<FM>(l, fm.filter(f, off));
+            if (off == 0 && rng.coin()) { if (rng.coin()) emitIterable<FM>(l, fm.filter(f)); else emitIterable<FM>(l, static_cast<const FM &>(fm).filter(f)); }
+            else if (rng.coin()) emitIterable<FM>(l, fm.filter(f, off));
+            else { emitIterable<FM>(l, static_cast<const FM &>(fm).filter(f, off)); std::printf("#stat fmt_const_offset_filter 1\n"); }
         } else {
             l << "siz" << fm.size();
             if (!(risky && g_sizeCrashes)) l << "siz" << fm.getTrie().size();
@@ -379,7 +580,8 @@ static void fmap_ftrie_case(Rng & rng, const F::Factors & sp, int maxOps) {
     Line l; l << "C20" << "fmf"; l.nats(sp);
     int nops = (int)rng.range(6, maxOps);
     for (int o = 0; o < nops; ++o) {
-        unsigned r = (unsigned)rng.below(100);
+        unsigned r = (unsigned)rng.below(125);
+        if (o >= 3 && r >= 100) { fmapExtraOp(rng, l, fm, sp, issued.size()); continue; }
         if (o < 3 || r < 50) {
             PF pf = pickKey(rng, sp, issued, false);
             size_t item = 1000 + 7 * issued.size() + rng.below(5);
@@ -391,7 +593,8 @@ static void fmap_ftrie_case(Rng & rng, const F::Factors & sp, int maxOps) {
             F::Factors f(len);
             for (size_t i = 0; i < len; ++i) f[i] = rng.below(sp[i]);
             l << "flf"; l.nats(f) << (size_t)0;
-            emitIterable<FM>(l, fm.filter(f));
+            if (rng.coin()) emitIterable<FM>(l, fm.filter(f)); else emitIterable<FM>(l, static_cast<const FM &>(fm).filter(f));
+            if (rng.coin(1, 3)) emitSorted(fm.filter(f), fm.getContainer());
         } else {
             l << "siz" << fm.size() << "siz" << fm.getTrie().size();
         }
@@ -399,6 +602,197 @@ static void fmap_ftrie_case(Rng & rng, const F::Factors & sp, int maxOps) {
     try { FM fm2(fm.getTrie(), fm.getContainer()); l << "siz" << fm2.size(); }
     catch (const std::exception & e) { l << "siz" << (size_t)888888; }
     l << "end"; l.emit();
+}
+
+
+// FilterMap with a structured item type: emplace forwards 0, 1 or 2 constructor arguments (`Args&&...`); items cross the protocol
+// encoded as a * 1000 + b, so the line is an ordinary `fmt` / `fmf` history
+template <class It> static size_t it_second(It it) { return it->second; }
+
+template <class TrieT>
+static void fmap_pair_case(Rng & rng, const F::Factors & sp) {
+    constexpr bool isTrie = std::is_same_v<TrieT, F::Trie>;
+    using Item = std::pair<size_t, size_t>;
+    using FM = F::FilterMap<Item, TrieT>;
+    FM fm(sp);
+    auto enc = [](const Item & x) { return x.first * 1000 + x.second; };
+    Line l; l << "C20" << (isTrie ? "fmt" : "fmf"); l.nats(sp);
+    int nops = (int)rng.range(6, 30);
+    size_t n = 0;
+    for (int o = 0; o < nops; ++o) {
+        unsigned r = (unsigned)rng.below(10);
+        if (o < 3 || r < 5) {
+            PF pf = randomPF(rng, sp, isTrie);
+            size_t a = 1 + rng.below(900), b = rng.below(1000);
+            unsigned form = (unsigned)rng.below(3);
+            if (form == 0) { fm.emplace(pf, a, b); }
+            else if (form == 1) { fm.emplace(pf, Item{a, b}); }
+            else { fm.emplace(pf); a = 0; b = 0; }
+            l << "emp"; pfTok(l, pf); l << (a * 1000 + b); ++n;
+            std::printf("#stat emplace_args_%u 1\n", form == 0 ? 2u : form == 1 ? 1u : 0u);
+        } else if (r < 8) {
+            size_t len = isTrie ? (size_t)rng.range(1, (long)sp.size()) : (rng.coin() ? sp.size() : rng.below(sp.size() + 1));
+            F::Factors f(len);
+            for (size_t i = 0; i < len; ++i) f[i] = rng.below(sp[i]);
+            std::vector<size_t> ids, items;
+            auto res = fm.filter(f);
+            for (auto it = res.begin(); it != res.end(); ++it) { ids.push_back(it.toContainerId()); items.push_back(enc(*it)); }
+            for (size_t k = 0; k < ids.size(); ++k) if (it_second(res.begin() + (long)k) != items[k] % 1000) items[k] = 999999999;   // operator-> on a struct item
+            l << "flf"; l.nats(f) << (size_t)0; l.nats(ids); l.nats(items);
+        } else if (r == 8 && n) {
+            size_t id = rng.below(n);
+            l << "get" << id << enc(fm[id]);
+        } else {
+            std::vector<size_t> a, b;
+            for (auto & x : fm) a.push_back(enc(x));
+            for (auto & x : fm.getContainer()) b.push_back(enc(x));
+            l << "all"; l.nats(a); l.nats(b);
+        }
+    }
+    l << "siz" << fm.size() << "end"; l.emit();
+}
+
+// FilterMap(trie, items) given a trie that has seen erasures: the constructor compares sizes only.  The ids a filter hands out are
+// read with toContainerId() (never dereferenced here), so an id outside the container is reported, not executed.
+// `C20 fmc trie|ftrie <F> <ops…> | n outcome nq (q ids)*`
+template <class TrieT>
+static void fmc_case(Rng & rng, const F::Factors & sp, const char * kind) {
+    constexpr bool isTrie = std::is_same_v<TrieT, F::Trie>;
+    TrieT t(sp);
+    std::vector<Issued> issued;
+    Line l; l << "C20" << "fmc" << kind; l.nats(sp);
+    int nins = (int)rng.range(2, 7);
+    for (int i = 0; i < nins; ++i) {
+        PF pf = randomPF(rng, sp, false);
+        size_t id = t.insert(pf);
+        l << "ins"; pfTok(l, pf); l << id;
+        issued.push_back({id, pf, true});
+    }
+    unsigned mode = (unsigned)rng.below(4);   // 0: no erasure, 1: erase the last, 2: erase a middle one, 3: a few
+    std::vector<size_t> victims;
+    if (mode == 1) victims.push_back(issued.size() - 1);
+    else if (mode == 2) victims.push_back(rng.below(issued.size() - 1));
+    else if (mode == 3) for (size_t i = 0; i < issued.size(); ++i) if (rng.coin(1, 3)) victims.push_back(i);
+    for (size_t v : victims) {
+        if (!issued[v].live) continue;
+        issued[v].live = false;
+        if (isTrie && rng.coin()) { if constexpr (isTrie) t.erase(issued[v].id); l << "era" << issued[v].id; }
+        else { t.erase(issued[v].id, issued[v].pf); l << "erp" << issued[v].id; pfTok(l, issued[v].pf); }
+    }
+    l << "|";
+    const size_t n = t.size();
+    std::vector<size_t> items(n);
+    for (size_t i = 0; i < n; ++i) items[i] = 3000 + i;
+    std::string out = "ok";
+    std::optional<F::FilterMap<size_t, TrieT>> fm;
+    try { fm.emplace(t, items); } catch (const std::exception & e) { out = errClass(e); }
+    l << n << out;
+    std::vector<F::Factors> qs;
+    if (fm) {
+        qs.push_back(F::Factors{});
+        for (int k = 0; k < 3; ++k) {
+            size_t len = isTrie ? (size_t)rng.range(1, (long)sp.size()) : sp.size();
+            F::Factors f(len);
+            for (size_t i = 0; i < len; ++i) f[i] = rng.below(sp[i]);
+            qs.push_back(f);
+        }
+    }
+    l << (size_t)qs.size();
+    for (auto & f : qs) {
+        std::vector<size_t> ids;
+        auto r = fm->filter(f);
+        for (auto it = r.begin(); it != r.end(); ++it) ids.push_back(it.toContainerId());
+        l.nats(f); l.nats(ids);
+    }
+    l.emit();
+    std::printf("#stat fmc_%s_mode_%u 1\n", kind, mode);
+}
+
+// IndexSkipMap: the container without the listed ids.  `C20 ism <kind> <ids> <cont> | visited values size`
+template <class M>
+static void emitSkipWalk(const char * kind, M && m, const std::vector<size_t> & ids, const std::vector<size_t> & cont, bool constIt) {
+    std::vector<size_t> visited, vals;
+    // (const iterator objects select the const-qualified `operator*` / `operator->`; a disagreement is made visible in `vals`)
+    if (constIt) for (auto it = m.cbegin(); it != m.cend(); ++it) {
+        const auto cit = it;
+        visited.push_back(it.toContainerId()); vals.push_back(*cit == *it && *(cit.operator->()) == *it ? (size_t)*it : (size_t)999999999);
+    }
+    else for (auto it = m.begin(); it != m.end(); ++it) {
+        const auto cit = it;
+        visited.push_back(it.toContainerId()); vals.push_back(*cit == *it ? (size_t)*(it.operator->()) : (size_t)999999999);
+    }
+    Line l; l << "C20" << "ism" << (std::string(kind) + (constIt ? "_c" : "")); l.nats(ids); l.nats(cont); l << "|";
+    l.nats(visited); l.nats(vals); l << (size_t)m.size(); l.emit();
+    std::printf("#stat ism_size_call_%s 1\n", m.size() == visited.size() ? "equals_range" : m.size() == ids.size() ? "equals_skip_count" : "other");
+}
+static void skipmap_case(Rng & rng) {
+    const size_t N = (size_t)rng.range(0, 12);
+    std::vector<size_t> cont(N);
+    for (size_t i = 0; i < N; ++i) cont[i] = 700 + 13 * i + rng.below(7);
+    std::vector<size_t> ids;
+    unsigned mode = (unsigned)rng.below(8);   // 0..4 ascending subset, 5: ascending with ids beyond the container, 6: unsorted, 7: repeated
+    for (size_t i = 0; i < N + (mode == 5 ? 3 : 0); ++i) if (rng.coin(1 + (unsigned)rng.below(3), 4)) ids.push_back(i);
+    if (mode == 6 && ids.size() >= 2) std::swap(ids[0], ids[ids.size() - 1]);
+    if (mode == 7 && !ids.empty()) ids.insert(ids.begin() + (long)rng.below(ids.size()), ids[rng.below(ids.size())]);
+    std::printf("#stat ism_ids_%s 1\n", mode <= 4 ? "ascending" : mode == 5 ? "ascending_beyond_container" : mode == 6 ? "unsorted" : "repeated");
+    std::printf("#stat ism_skips_%s 1\n", ids.empty() ? "none" : ids.size() >= N ? "all_or_more" : "some");
+    const bool c = rng.coin();
+    { AIToolbox::IndexSkipMap<std::vector<size_t>, std::vector<size_t>> m(ids, cont); emitSkipWalk("own", m, ids, cont, c); }
+    { AIToolbox::IndexSkipMap<std::vector<size_t>*, std::vector<size_t>> m(&ids, cont); emitSkipWalk("ref", m, ids, cont, !c); }
+    { AIToolbox::IndexSkipMap<std::vector<size_t>*, const std::vector<size_t>> m(&ids, cont); emitSkipWalk("cref", m, ids, cont, c); }
+    if (N >= 3) { AIToolbox::IndexSkipMap m({(size_t)0, N - 2}, cont); emitSkipWalk("ilist", m, std::vector<size_t>{0, N - 2}, cont, c); }
+    if (N >= 1) {
+        // the library's own use (Polytope.hpp findVerticesNaive): a one-element std::array by pointer over a const range, re-pointed per iteration
+        std::array<size_t, 1> one;
+        const std::vector<size_t> & ccont = cont;
+        for (size_t i = 0; i < N; i += 1 + rng.below(3)) {
+            one[0] = i;
+            AIToolbox::IndexSkipMap m(&one, ccont);
+            emitSkipWalk("array1", m, std::vector<size_t>{i}, cont, true);
+        }
+    }
+}
+
+// IndexMap::sort(): `C20 srt <ids> <cont> | ids' values'`
+static void sort_case(Rng & rng) {
+    const size_t N = (size_t)rng.range(1, 12);
+    std::vector<size_t> cont(N);
+    const bool ties = rng.coin();
+    for (size_t i = 0; i < N; ++i) cont[i] = ties ? 900 + rng.below(4) : 900 + rng.below(1000);
+    std::vector<size_t> ids((size_t)rng.below(10));
+    for (auto & x : ids) x = rng.below(N);
+    AIToolbox::IndexMap<std::vector<size_t>, std::vector<size_t>> m(ids, cont);
+    m.sort();
+    std::vector<size_t> ids2, vals;
+    for (auto it = m.begin(); it != m.end(); ++it) { ids2.push_back(it.toContainerId()); vals.push_back(*it); }
+    Line l; l << "C20" << "srt"; l.nats(ids); l.nats(cont); l << "|"; l.nats(ids2); l.nats(vals); l.emit();
+    std::printf("#stat sort_%s_len_%s 1\n", ties ? "ties" : "distinct", ids.size() < 2 ? "0_1" : ids.size() < 5 ? "2_4" : "5plus");
+}
+
+// the library's own `match` (Core.cpp): the notion of "compatible" the callers of the indexes use.  `C20 mat <a> <b> <f> | …`
+static void match_case(Rng & rng) {
+    F::Factors sp((size_t)rng.range(2, 7));
+    for (auto & d : sp) d = (size_t)rng.range(1, 3);
+    PF a = randomPF(rng, sp, true), b = rng.coin(1, 4) ? a : randomPF(rng, sp, true);
+    if (!b.first.empty() && rng.coin(1, 4)) b.second[rng.below(b.second.size())] = rng.below(3);   // near miss
+    F::Factors f(sp.size());
+    for (size_t i = 0; i < sp.size(); ++i) f[i] = rng.below(sp[i]);
+    Line l; l << "C20" << "mat"; pfTok(l, a); pfTok(l, b); l.nats(f); l << "|";
+    l << F::match(a, b) << F::match(b, a) << F::match(f, a) << F::match(f, b); l.emit();
+    std::printf("#stat match_%s 1\n", F::match(a, b) ? "compatible" : "conflict");
+    std::printf("#stat match_sizes_%s 1\n", a.first.size() == b.first.size() ? "equal" : a.first.size() > b.first.size() ? "first_longer" : "second_longer");
+}
+
+// `merge(pf, pf)` of Core.cpp: how callers combine compatible keys (what reconstruct's returned Factors amount to).  `C20 mrg <a> <b> | <merged>`
+static void merge_case(Rng & rng) {
+    F::Factors sp((size_t)rng.range(2, 7));
+    for (auto & d : sp) d = (size_t)rng.range(1, 3);
+    PF a = randomPF(rng, sp, true), b = randomPF(rng, sp, true);
+    if (rng.coin(2, 3)) for (size_t i = 0; i < b.first.size(); ++i)       // make them compatible most of the time
+        for (size_t j = 0; j < a.first.size(); ++j) if (a.first[j] == b.first[i]) b.second[i] = a.second[j];
+    PF m = F::merge(a, b);
+    Line l; l << "C20" << "mrg"; pfTok(l, a); pfTok(l, b); l << "|"; pfTok(l, m); l.emit();
+    std::printf("#stat merge_%s 1\n", F::match(a, b) ? "compatible" : "conflict");
 }
 
 static void ctor_case() {
@@ -434,13 +828,32 @@ static void fixed_cases() {
     }
 }
 
+// C20-4: a trie with an erased entry below its highest id and a container of the documented size
+static void fmc_fixed() {
+    F::Trie t(F::Factors{2, 2});
+    PF k{{0}, {1}};
+    t.insert(k); t.insert(k); t.erase(0);
+    Line l; l << "C20" << "fmc" << "trie"; l.nats(F::Factors{2, 2});
+    l << "ins"; pfTok(l, k); l << (size_t)0; l << "ins"; pfTok(l, k); l << (size_t)1; l << "era" << (size_t)0; l << "|";
+    std::string out = "ok";
+    std::vector<size_t> ids;
+    try {
+        F::FilterMap<size_t, F::Trie> fm(t, std::vector<size_t>{42});
+        auto r = fm.filter(F::Factors{1});
+        for (auto it = r.begin(); it != r.end(); ++it) ids.push_back(it.toContainerId());   // not dereferenced
+    } catch (const std::exception & e) { out = errClass(e); }
+    l << t.size() << out;
+    if (out == "ok") { l << (size_t)1; l.nats(F::Factors{1}); l.nats(ids); } else l << (size_t)0;
+    l.emit();
+}
+
 static int g_perShape = 0, g_random = 0;
-static const int kFixed = 2;   // case 0: probes + ctor, case 1: fixed histories
+static const int kFixed = 22;   // case 0: probes + ctor, case 1: fixed histories, cases 2..21: auxiliary streams (5 streams x 4)
 
 long verif::verif_ncases(const std::string & tier) {
     if (tier == "thorough") build_spaces(2, 4, 4); else build_spaces(2, 3, 3);
-    g_perShape = tier == "thorough" ? 60 : 120;
-    g_random = tier == "thorough" ? 2000 : 300;    // larger random shapes: 2..6 factors of sizes 1..5
+    g_perShape = tier == "thorough" ? 400 : 240;
+    g_random = tier == "thorough" ? 20000 : 1000;    // larger random shapes: 2..6 factors of sizes 1..5
     run_probes();
     return kFixed + (long)g_spaces.size() * g_perShape + g_random;
 }
@@ -453,12 +866,36 @@ void verif::verif_case(Rng & rng, long idx, const std::string & tier) {
         ctor_case();
         return;
     }
-    if (idx == 1) { fixed_cases(); for (int i = 0; i < 40; ++i) indexmap_case(rng); return; }
+    if (idx == 1) { fixed_cases(); fmc_fixed(); return; }
+    if (idx < kFixed) {
+        // auxiliary streams, each in cases of its own (a crash in one stream does not hide the others): 4 cases per stream
+        const int rep = tier == "thorough" ? 1000 : 40;
+        const long stream = (idx - 2) / 4;
+        for (int i = 0; i < rep; ++i) {
+            if (stream == 0) indexmap_case(rng);
+            else if (stream == 1) skipmap_case(rng);
+            else if (stream == 2) sort_case(rng);
+            else if (stream == 3) {
+                F::Factors sp((size_t)rng.range(2, 5));
+                for (auto & d : sp) d = (size_t)rng.range(1, 4);
+                if (rng.coin()) fmc_case<F::Trie>(rng, sp, "trie"); else fmc_case<F::FasterTrie>(rng, sp, "ftrie");
+            } else {
+                match_case(rng);
+                merge_case(rng);
+                if (i % 4 == 0) {
+                    F::Factors sp((size_t)rng.range(2, 5));
+                    for (auto & d : sp) d = (size_t)rng.range(1, 4);
+                    if (rng.coin()) fmap_pair_case<F::Trie>(rng, sp); else fmap_pair_case<F::FasterTrie>(rng, sp);
+                }
+            }
+        }
+        return;
+    }
     long k = idx - kFixed;
-    const int maxOps = tier == "thorough" ? 400 : 60;
+    const int maxOps = tier == "thorough" ? 400 : 100;
     F::Factors rsp;
     if (k >= (long)g_spaces.size() * g_perShape) {
-        size_t n = (size_t)rng.range(2, 6);
+        size_t n = (size_t)(rng.coin(1, 5) ? rng.range(7, 9) : rng.range(2, 6));
         rsp.resize(n);
         for (auto & d : rsp) d = (size_t)rng.range(1, 5);
         std::printf("#stat random_shape_%s 1\n", firstIsSmallest(rsp) ? "first_smallest" : "first_not_smallest");
@@ -467,9 +904,9 @@ void verif::verif_case(Rng & rng, long idx, const std::string & tier) {
     int sub = rsp.empty() ? (int)(k % g_perShape) : (int)rng.below(g_perShape);
     // most histories are short-to-medium; one per shape goes to the limit
     int cap = sub == 0 ? maxOps : (int)rng.range(12, std::max(13, maxOps / 2));
-    if (sub < g_perShape / 2) trie_case(rng, sp, cap);
-    else if (sub < g_perShape - 3) ftrie_case(rng, sp, cap);
-    else if (sub < g_perShape - 1) fmap_trie_case(rng, sp, std::min(cap, 80));
+    if (sub < g_perShape * 9 / 20) trie_case(rng, sp, cap);
+    else if (sub < g_perShape * 16 / 20) ftrie_case(rng, sp, cap);
+    else if (sub < g_perShape * 19 / 20 - 1) fmap_trie_case(rng, sp, std::min(cap, 80));
     else fmap_ftrie_case(rng, sp, std::min(cap, 80));
 }
 
